@@ -1,4 +1,185 @@
+//! Family 6: Credential / Presentation / Status / Subject / … JSON, validator utils on accepted values.
+use crate::gen::{self, Kind};
 use crate::world::World;
-use crate::Cx;
+use crate::{Cx, In};
+use identity_core::common::{Object, Timestamp, Url};
+use identity_core::convert::{FromJson, ToJson};
+use identity_credential::credential::{Credential, Evidence, Issuer, Jwt, Policy, Proof, RefreshService, RevocationBitmapStatus, Schema, Status, Subject};
+use identity_credential::presentation::{JwtPresentationOptions, Presentation};
+use identity_credential::revocation::status_list_2021::{StatusList2021Credential, StatusList2021Entry};
+use identity_credential::validator::{
+  JwtCredentialValidationOptions, JwtCredentialValidatorUtils, JwtPresentationValidationOptions, JwtPresentationValidatorUtils, StatusCheck, SubjectHolderRelationship,
+};
+use identity_did::CoreDID;
+use identity_iota_core::IotaDID;
+use serde_json::Value;
 use vh::Rng;
-pub fn run(_cx: &mut Cx, _w: &World, _rng: &mut Rng, _budget: u64) {}
+
+pub fn sweep_credential(cx: &mut Cx, w: &World, origin: &str, c: &Credential) {
+  let i = In::C(origin, "Credential");
+  cx.acc("Credential.check_structure", i, || (c.check_structure().is_ok(), JwtCredentialValidatorUtils::check_structure(c).is_ok()));
+  cx.acc("Credential.serialize_jwt", i, || c.serialize_jwt(None).map(|s| s.len()).ok());
+  cx.acc("Credential.serialize_jwt", In::C(origin, "custom claims"), || {
+    let custom = Object::from_json(r#"{"iss":"x","vc":1,"exp":"y","a":[1,{"b":null}]}"#).ok();
+    c.serialize_jwt(custom).map(|s| s.len()).ok()
+  });
+  cx.acc("Credential.to_json", i, || c.to_json().map(|j| Credential::<Object>::from_json(&j).map(|b| b == *c).ok()).ok());
+  cx.acc("Credential.fmt_clone_eq", i, || (c.to_string().len(), format!("{:?}", c).len(), c.clone() == *c, c.to_json_pretty().is_ok()));
+  cx.acc("Credential.set_proof", i, || {
+    let mut x = c.clone();
+    x.set_proof(Some(Proof::new("t".to_owned(), Object::new())));
+    x.set_proof(None);
+    x.to_json().is_ok()
+  });
+  for ts in [0i64, -62_167_219_200, 253_402_300_799, 1_700_000_000] {
+    let t = Timestamp::from_unix(ts).expect("harness timestamp");
+    cx.acc("JwtCredentialValidatorUtils.check_dates", i, || (JwtCredentialValidatorUtils::check_expires_on_or_after(c, t).is_ok(), JwtCredentialValidatorUtils::check_issued_on_or_before(c, t).is_ok()));
+  }
+  let holder = Url::parse("did:example:subject").expect("harness url");
+  for r in [SubjectHolderRelationship::AlwaysSubject, SubjectHolderRelationship::SubjectOnNonTransferable, SubjectHolderRelationship::Any] {
+    cx.acc("JwtCredentialValidatorUtils.check_subject_holder_relationship", i, || JwtCredentialValidatorUtils::check_subject_holder_relationship(c, &holder, r).is_ok());
+  }
+  cx.acc("JwtCredentialValidatorUtils.extract_issuer", i, || (JwtCredentialValidatorUtils::extract_issuer::<CoreDID, _>(c).is_ok(), JwtCredentialValidatorUtils::extract_issuer::<IotaDID, _>(c).is_ok()));
+  for sc in [StatusCheck::Strict, StatusCheck::SkipUnsupported, StatusCheck::SkipAll] {
+    cx.acc("JwtCredentialValidatorUtils.check_status", i, || JwtCredentialValidatorUtils::check_status(c, std::slice::from_ref(&w.issuer_doc), sc).is_ok());
+    cx.acc("JwtCredentialValidatorUtils.check_status", In::C(origin, "no issuers"), || JwtCredentialValidatorUtils::check_status::<identity_document::document::CoreDocument, _>(c, &[], sc).is_ok());
+  }
+  if let Some(st) = &c.credential_status {
+    cx.acc("RevocationBitmapStatus.try_from_Status", i, || RevocationBitmapStatus::try_from(st.clone()).map(|r| (r.id().is_ok(), r.index().is_ok())).ok());
+    cx.acc("StatusList2021Entry.try_from_Status", i, || StatusList2021Entry::try_from(st).map(|e| e.index()).ok());
+    let sj = crate::fam_status::slc_json(&w.status_list_encoded, "revocation", "https://example.com/credentials/status/3");
+    if let Ok(Some(slc)) = vh::panicmon::catch(|| StatusList2021Credential::from_json(&sj).ok()) {
+      cx.acc("JwtCredentialValidatorUtils.check_status_with_status_list_2021", i, || JwtCredentialValidatorUtils::check_status_with_status_list_2021(c, &slc, StatusCheck::Strict).is_ok());
+    }
+  }
+  if let Some(Ok(slc)) = cx.acc("StatusList2021Credential.try_from_Credential", i, || StatusList2021Credential::try_from(c.clone())) {
+    cx.acc("StatusList2021Credential.entry", i, || (slc.entry(0).ok(), slc.entry(131072).ok(), slc.entry(usize::MAX).ok()));
+  }
+}
+
+pub fn sweep_presentation<C: serde::Serialize + serde::de::DeserializeOwned + Clone + ToOwned<Owned = C> + std::fmt::Debug + PartialEq>(cx: &mut Cx, origin: &str, p: &Presentation<C>) {
+  let i = In::C(origin, "Presentation");
+  cx.acc("Presentation.check_structure", i, || (p.check_structure().is_ok(), JwtPresentationValidatorUtils::check_structure(p).is_ok()));
+  for o in [
+    r#"{}"#,
+    r#"{"expirationDate":"9999-12-31T23:59:59Z","issuanceDate":"0000-01-01T00:00:00Z","audience":"a:","customClaims":{"vp":1,"iss":2}}"#,
+    r#"{"expirationDate":null,"issuanceDate":null}"#,
+  ] {
+    if let Ok(opts) = JwtPresentationOptions::from_json(o) {
+      cx.acc("Presentation.serialize_jwt", In::C(origin, o), || p.serialize_jwt(&opts).map(|s| s.len()).ok());
+    }
+  }
+  cx.acc("Presentation.serialize_jwt", In::C(origin, "default options"), || p.serialize_jwt(&JwtPresentationOptions::default()).map(|s| s.len()).ok());
+  cx.acc("Presentation.to_json", i, || p.to_json().map(|j| Presentation::<C>::from_json(&j).is_ok()).is_ok());
+  cx.acc("Presentation.fmt_clone_eq", i, || (p.to_string().len(), format!("{:?}", p).len(), p.clone() == *p));
+  cx.acc("Presentation.set_proof", i, || {
+    let mut x = p.clone();
+    x.set_proof(Some(Proof::new("t".to_owned(), Object::new())));
+    x.to_json().is_ok()
+  });
+}
+
+pub fn feed(cx: &mut Cx, w: &World, j: &str) {
+  let i = In::S(j);
+  if let Some(c) = cx.ent("Credential::from_json", i, || Credential::<Object>::from_json(j)) {
+    sweep_credential(cx, w, j, &c);
+  }
+  cx.ent("Credential<Value>::from_json", i, || Credential::<Value>::from_json(j).map(|c| (c.check_structure().is_ok(), c.serialize_jwt(None).is_ok())));
+  if let Some(p) = cx.ent("Presentation<Jwt>::from_json", i, || Presentation::<Jwt>::from_json(j)) {
+    sweep_presentation(cx, j, &p);
+  }
+  if let Some(p) = cx.ent("Presentation<Credential>::from_json", i, || Presentation::<Credential>::from_json(j)) {
+    sweep_presentation(cx, j, &p);
+  }
+  if let Some(p) = cx.ent("Presentation<Value>::from_json", i, || Presentation::<Value>::from_json(j)) {
+    sweep_presentation(cx, j, &p);
+  }
+  macro_rules! simple {
+    ($name:literal, $t:ty) => {
+      if let Some(v) = cx.ent(concat!($name, "::from_json"), i, || <$t>::from_json(j)) {
+        cx.acc(concat!($name, ".sweep"), i, || (v.to_json().map(|x| <$t>::from_json(&x).is_ok()).is_ok(), format!("{:?}", v).len(), v.clone() == v));
+      }
+    };
+  }
+  simple!("Subject", Subject);
+  simple!("Issuer", Issuer);
+  simple!("Evidence", Evidence);
+  simple!("Schema", Schema);
+  simple!("Policy", Policy);
+  simple!("RefreshService", RefreshService);
+  simple!("Status", Status);
+  simple!("Proof", Proof);
+  simple!("Jwt", Jwt);
+  cx.ent("JwtCredentialValidationOptions::from_json", i, || JwtCredentialValidationOptions::from_json(j).map(|o| (o.to_json().is_ok(), format!("{:?}", o).len())));
+  cx.ent("JwtPresentationValidationOptions::from_json", i, || JwtPresentationValidationOptions::from_json(j).map(|o| (o.to_json().is_ok(), format!("{:?}", o).len())));
+  cx.ent("JwtPresentationOptions::from_json", i, || JwtPresentationOptions::from_json(j).map(|o| (o.to_json().is_ok(), format!("{:?}", o).len())));
+}
+
+pub fn run(cx: &mut Cx, w: &World, rng: &mut Rng, budget: u64) {
+  cx.set("cred", "directed");
+  let base = r#"{"@context":["https://www.w3.org/2018/credentials/v1"],"id":"http://example.edu/credentials/3732","type":["VerifiableCredential","X"],"issuer":"ISSUER","issuanceDate":"2010-01-01T19:23:24Z","expirationDate":"2020-01-01T19:23:24Z","credentialSubject":{"id":"did:example:subject","a":1},"credentialStatus":STATUS}"#;
+  let mut directed: Vec<String> = Vec::new();
+  for (_, t, _) in w.seeds.json.iter().filter(|(k, _, _)| matches!(k, Kind::Cred | Kind::Pres | Kind::Status | Kind::Other)) {
+    directed.push(t.clone());
+  }
+  let statuses = [
+    format!(r#"{{"id":"{}#rev","type":"RevocationBitmap2022","revocationBitmapIndex":"5"}}"#, crate::world::ISSUER_DID),
+    format!(r#"{{"id":"{}?index=5#rev","type":"RevocationBitmap2022","revocationBitmapIndex":"4294967296"}}"#, crate::world::ISSUER_DID),
+    crate::fam_status::entry_json("\"131072\"", "revocation", "https://example.com/credentials/status/3"),
+    crate::fam_status::entry_json("18446744073709551615", "revocation", "https://example.com/credentials/status/3"),
+    crate::fam_status::entry_json("\"1\"", "suspension", "https://example.com/credentials/status/3"),
+    r#"{"id":"a:","type":"X"}"#.to_string(),
+    "null".to_string(),
+  ];
+  for st in &statuses {
+    for iss in [crate::world::ISSUER_DID, "https://example.edu/issuers/14", " did:example:1", "did:example:1/p?q#f", "did:example:%41"] {
+      directed.push(base.replace("ISSUER", iss).replace("STATUS", st));
+    }
+  }
+  for (a, b) in [
+    ("\"issuanceDate\":\"2010-01-01T19:23:24Z\"", "\"issuanceDate\":\"9999-12-31T23:59:59-01:00\""),
+    ("\"expirationDate\":\"2020-01-01T19:23:24Z\"", "\"expirationDate\":\"0000-01-01T00:00:00+01:00\""),
+    ("\"credentialSubject\":{\"id\":\"did:example:subject\",\"a\":1}", "\"credentialSubject\":[]"),
+    ("\"credentialSubject\":{\"id\":\"did:example:subject\",\"a\":1}", "\"credentialSubject\":[{\"id\":\"a:\"},{\"id\":\"a:\"}]"),
+    ("\"credentialSubject\":{\"id\":\"did:example:subject\",\"a\":1}", "\"credentialSubject\":{}"),
+    ("\"type\":[\"VerifiableCredential\",\"X\"]", "\"type\":[]"),
+    ("\"type\":[\"VerifiableCredential\",\"X\"]", "\"type\":\"X\""),
+    ("\"@context\":[\"https://www.w3.org/2018/credentials/v1\"]", "\"@context\":[]"),
+    ("\"@context\":[\"https://www.w3.org/2018/credentials/v1\"]", "\"@context\":{\"a\":1}"),
+    ("\"issuer\":\"ISSUER\"", "\"issuer\":{\"id\":\"a:\",\"name\":1}"),
+    ("\"issuer\":\"ISSUER\"", "\"issuer\":{}"),
+  ] {
+    directed.push(base.replace("STATUS", "null").replace(a, b).replace("ISSUER", "a:"));
+  }
+  let cred = base.replace("ISSUER", "did:example:1").replace("STATUS", "null");
+  let jwt = crate::world::sign_compact(&w.ed, r#"{"alg":"EdDSA"}"#, b"{}", crate::world::SigMod::Good);
+  for vc in [format!("[{}]", cred), format!("[\"{}\"]", jwt), "[]".to_string(), format!("{}", cred), "[1,null,{}]".to_string(), format!("[{c},{c},\"x\"]", c = cred)] {
+    for holder in ["did:example:holder", "a:", " did:x:y"] {
+      directed.push(format!(r#"{{"@context":"https://www.w3.org/2018/credentials/v1","type":"VerifiablePresentation","verifiableCredential":{},"holder":"{}"}}"#, vc, holder));
+    }
+  }
+  directed.push(gen::deep_json(100, 1));
+  directed.push(format!(r#"{{"@context":{}}}"#, gen::deep_json(99, 0)));
+  for (k, j) in directed.iter().enumerate() {
+    if cx.args.mine(k as u64) {
+      feed(cx, w, j);
+    }
+  }
+
+  cx.gen("mutation");
+  let mut idxs = w.seeds.of(Kind::Cred);
+  idxs.extend(w.seeds.of(Kind::Pres));
+  idxs.extend(w.seeds.of(Kind::Status));
+  for _ in 0..budget {
+    let (text, val): (String, Option<Value>) = if rng.chance(1, 3) {
+      let t = &directed[rng.usize(directed.len())];
+      (t.clone(), serde_json::from_str(t).ok())
+    } else {
+      let (_, t, v) = w.seeds.pick(rng, &idxs);
+      (t.clone(), Some(v.clone()))
+    };
+    let other = gen::any_token(rng);
+    let j = gen::mutate_json_text(rng, &text, val.as_ref(), other);
+    feed(cx, w, &j);
+  }
+}
